@@ -1469,6 +1469,12 @@ var unaryGopNames = map[string]string{
 
 func loadFuncBody(ctx *blockCtx, fn *gogen.Func, body *ast.BlockStmt, sigBase *types.Signature, src ast.Node) {
 	cb := fn.BodyStart(ctx.pkg, body)
+	// a function can be loaded on demand in the middle of a statement of another function (the first
+	// reference to it): keep that statement's pending //line comment
+	comments, once := cb.BackupComments()
+	defer func() {
+		cb.SetComments(comments, once)
+	}()
 	cb.SetComments(nil, false)
 	if sigBase != nil {
 		// this.Sprite.Main(...) or this.Game.MainEntry(...)
